@@ -452,6 +452,15 @@ func (vc *FnVC) Translate() {
 		for _, u := range fc.Uses {
 			vc.useLemma(u)
 		}
+		for _, gv := range fc.GhostVars {
+			comp, sort, es := ghostComp(gv)
+			t, err := env.Elab(gv.Init.Expr)
+			if err != nil || t.Sort != es {
+				vc.errorf("ghostvar %s: bad initial value %q", gv.Name, gv.Init.Text)
+				continue
+			}
+			vc.fact(fmt.Sprintf("(= (select %s 0) %s)", vc.entryComp(comp, sort), t.S))
+		}
 	}
 	// vacuity probe: preconditions satisfiable
 	pre := vc.ob("presat", "requires-satisfiable", "conjunction of requires is satisfiable", "false", fn.Pos())
@@ -1017,6 +1026,12 @@ func (vc *FnVC) havocLoopHeap(li *loopInfo) {
 				vc.noteStoreTargets(in.Addr, in.Val.Type(), inLoop, note)
 			case ssa.CallInstruction:
 				vc.noteCallTargets(in, inLoop, note)
+				if vc.fc != nil {
+					for _, gv := range vc.fc.GhostVars {
+						c, s, _ := ghostComp(gv)
+						note(c, s, "", false)
+					}
+				}
 			case *ssa.MapUpdate:
 				// maps are havocked as opaque values; nothing in heap components
 			}
